@@ -10,6 +10,8 @@ import Cctz.Model.Format
 import Cctz.Spec.FormatSpec
 import Cctz.Spec.FormatLex
 import Cctz.Properties.C08
+import Cctz.Proofs.LexLoop
+import Cctz.Proofs.LexOk
 
 namespace Cctz.C08Lex
 open Cctz Cctz.Bytes Cctz.Format Cctz.Spec
@@ -34,5 +36,67 @@ def format_ok_statement : Prop :=
   ∀ (sf : Strftime) (fmt : Bytes) (al : Tz.AbsLookup) (t fs : Int),
     C08.GoodLookup al → inI64 t → 0 ≤ fs → fs < 1000000000000000 →
     (format sf fmt al t fs).ok
+
+/-! ### proofs (helper lemmas in `Cctz/Proofs/Lex*.lean`) -/
+
+theorem toTM : toTM_statement := by
+  intro al hg
+  obtain ⟨hv, hy, _, _⟩ := hg
+  exact ⟨Fm.toTM_ok al hv hy, Lx.toTM_val al hv⟩
+
+theorem format_follows_spec : format_follows_spec_statement := by
+  intro sf fmt al t fs hg ht h0 h1
+  obtain ⟨hv, hy, ho1, ho2⟩ := hg
+  exact Lx.format_val sf fmt al t fs hv hy ho1 ho2 ht h0 h1
+
+theorem format_ok : format_ok_statement := by
+  intro sf fmt al t fs hg ht h0 h1
+  obtain ⟨hv, hy, ho1, ho2⟩ := hg
+  exact Lx.format_ok sf fmt al t fs hv hy ho1 ho2 ht h0 h1
+
+/-! ### the hypotheses are satisfiable and the statements say what is meant
+
+2024-02-29 23:59:58 at UTC-03:30, half a second past, with a `strftime` that echoes the format it is
+given (so the runs handed to it show up verbatim in the output). -/
+
+/-- the running example -/
+def exLookup : Tz.AbsLookup := ⟨⟨2024, 2, 29, 23, 59, 58⟩, -12600, false, ofString "NST"⟩
+def exEcho : Strftime := fun run _ => run
+
+example : C08.GoodLookup exLookup ∧ inI64 1709263798 ∧ (0 : Int) ≤ 500000000000000 ∧
+    (500000000000000 : Int) < 1000000000000000 := by
+  unfold C08.GoodLookup; decide +kernel
+
+/-- `ToTM`: a Thursday (tm_wday 4), the 60th day of the year (tm_yday 59), tm_year 124 -/
+example : (Cctz.Format.toTM exLookup).val = ⟨58, 59, 23, 29, 1, 124, 4, 59, 0⟩ ∧
+    Lex.wday exLookup.cs = 4 ∧ Lex.yday exLookup.cs = 59 := by decide +kernel
+
+/-- tm_year saturates at the ends of `int` -/
+example : (Cctz.Format.toTM ⟨⟨9223372036854775807, 1, 1, 0, 0, 0⟩, 0, false, []⟩).val.year = 2147483647 ∧
+    (Cctz.Format.toTM ⟨⟨-9223372036854775808, 1, 1, 0, 0, 0⟩, 0, false, []⟩).val.year = -2147483648 := by
+  decide +kernel
+
+/-- the specification is not vacuous: "%a, " and "%b %%" reach strftime as two runs, the rest is
+rendered by the library -/
+example : Lex.segs exLookup 1709263798 500000000000000 20 none (ofString "%a, %d %b %%%Y %E5S") =
+    [.lit [], .lit [], .run (ofString "%a, "), .lit (ofString "29"), .lit (ofString " "), .lit [],
+     .run (ofString "%b %%"), .lit (ofString "2024"), .lit (ofString " "), .lit [],
+     .lit (ofString "58.50000")] := by decide +kernel
+
+example : Lex.formatSpec exEcho (Cctz.Format.toTM exLookup).val (ofString "%a, %d %b %%%Y %E5S") exLookup
+    1709263798 500000000000000 = ofString "%a, 29 %b %%2024 58.50000" := by decide +kernel
+
+/-- … and the model computes the same, with no flag raised -/
+example :
+    (Cctz.Format.format exEcho (ofString "%a, %d %b %%%Y %E5S") exLookup 1709263798 500000000000000).val =
+      ofString "%a, 29 %b %%2024 58.50000" ∧
+    (Cctz.Format.format exEcho (ofString "%a, %d %b %%%Y %E5S") exLookup 1709263798 500000000000000).flags =
+      Flags.none := by decide +kernel
+
+/-- week numbers, weekday numbers, `%e`, the shortest offset form, fractions, an unknown conversion
+and a lone percent sign at the end -/
+example : Lex.formatSpec exEcho (Cctz.Format.toTM exLookup).val (ofString "%U|%W|%u|%w|%e|%:::z|%E*f|%E20f|%Q%")
+    exLookup 1709263798 500000000000000 = ofString "08|09|4|4|29|-03:30|5|500000000000000000|%Q%" := by
+  decide +kernel
 
 end Cctz.C08Lex
